@@ -95,7 +95,8 @@ class Mon:
         rate = bank.sampling_rate
         self.rec.ev()
         self.rec.count("calls_" + name)
-        info = dict(cls=name, filt=int(i), W=W, cfg=self.cfg_of.get(id(bank)), supports=list(sup), supports_hz=list(suph))
+        info = dict(cls=name, filt=int(i), W=W, cfg=self.cfg_of.get(id(bank)), supports=list(sup), supports_hz=list(suph),
+                    periods_spanned=float((suph[1] - suph[0]) / rate), threshold=float(T))
         if c.exc is not None:
             self.v("%s.get_impulse_response(%d, %d) raised %r" % (name, i, W, c.exc), check="raise", **info)
             return
@@ -236,4 +237,9 @@ def finish(rec):
 
 
 def classify(w):
+    """a gammatone filter so wide that its effective frequency support (response above the threshold) spans several periods
+    of the sampling rate: the periodised response is summed over exactly those periods, and the tails of the infinitely many
+    left out, each below the threshold, add up to slightly more than one threshold per side"""
+    if w.get("check") == "ifft" and w.get("cls") == "ComplexGammatoneFilterBank" and w.get("periods_spanned", 0) >= 6 and w.get("ratio", 99) <= 2.5:
+        return "gammatone-many-period-tails-exceed-2T"
     return None
